@@ -301,23 +301,81 @@ def ruyaml_root_cause(parse_string, plain_text, c0, drop_keys, modulo_none=False
         import ruyaml
     except ImportError:
         return None
+    # The signature names WHICH scalars the two YAML readers disagree on, by resolved tag (jsonargparse's loader ->
+    # ruyaml), e.g. "str->int": a different disagreement (a plain scalar that ruyaml takes for a timestamp because
+    # the dumper stopped quoting it) is a different signature and is not covered by a known-finding entry.
+    tags = ruyaml_tag_disagreements(plain_text)
+    suffix = ":" + (",".join(tags) if tags else "same-tags")
     try:
         y = ruyaml.YAML()
+        y.preserve_quotes = True  # as add_yaml_comments configures it
         data = y.load(plain_text)
         out = io.StringIO()
         y.dump(data, out)
         text2 = out.getvalue()
     except Exception:
-        return SIG_RUYAML_RAISES  # ruyaml cannot even re-load what the yaml dumper wrote
+        return SIG_RUYAML_RAISES + suffix  # ruyaml cannot even re-load what the yaml dumper wrote
     try:
         import jsonargparse
 
         if not teq(_plain(data), jsonargparse.get_loader("yaml")(plain_text)):
-            return SIG_RUYAML_RESPELLS
+            return SIG_RUYAML_RESPELLS + suffix
     except Exception:
         pass
     cls2, _, _ = judge_reparse(parse_string, text2, c0, drop_keys, modulo_none)
-    return SIG_RUYAML_RESPELLS if cls2 is not None else None
+    return SIG_RUYAML_RESPELLS + suffix if cls2 is not None else None
+
+
+def ruyaml_tag_disagreements(text):
+    """Sorted list of "a->b": a scalar of `text` that jsonargparse's yaml loader resolves to tag a (str, int, ...)
+    is resolved to tag b by ruyaml's round-trip loader.  Both documents are composed only (no construction), so
+    this also works when ruyaml cannot construct the value.  ["compose-fails"] / ["structure"] when the node trees
+    cannot be compared."""
+    import yaml
+
+    try:
+        import ruyaml
+
+        try:
+            from jsonargparse import _loaders_dumpers as ld
+
+            loader = ld.get_yaml_default_loader()
+        except Exception:
+            loader = yaml.SafeLoader
+        a = yaml.compose(text, Loader=loader)
+        b = ruyaml.YAML().compose(text)
+    except Exception:
+        return ["compose-fails"]
+    out = set()
+
+    def short_tag(t):
+        return str(t).rsplit(":", 1)[-1]
+
+    def walk(x, y, depth=0):
+        if x is None or y is None or depth > 40:
+            if x is not y:
+                out.add("structure")
+            return
+        kx, ky = type(x).__name__, type(y).__name__
+        if kx != ky:
+            out.add("structure")
+            return
+        if kx == "ScalarNode":
+            if short_tag(x.tag) != short_tag(y.tag):
+                out.add(f"{short_tag(x.tag)}->{short_tag(y.tag)}")
+            return
+        if len(x.value) != len(y.value):
+            out.add("structure")
+            return
+        for i, j in zip(x.value, y.value):
+            if kx == "MappingNode":
+                walk(i[0], j[0], depth + 1)
+                walk(i[1], j[1], depth + 1)
+            else:
+                walk(i, j, depth + 1)
+
+    walk(a, b)
+    return sorted(out)
 
 
 SIG_JSON_KEY = "json-text:non-string-mapping-key:read-back-as-str"
@@ -367,3 +425,55 @@ def merge_formats(results, formats):
     if len(formats) >= 2 and len(devs) == len(formats) and len({c for _, c in devs}) == 1:
         return [("all", devs[0][1], devs[0][0])]
     return [(f, c, f) for f, c in devs]
+
+
+# ---------------------------------------------------------------------------------------------------
+# characters that a YAML reader treats specially although they are legal in a Python / JSON string
+
+SIG_JSON_RAWCHAR = "json-text:raw-character-that-the-yaml-reader-folds-or-rejects"
+SIG_YAML_RAWBREAK = "yaml-text:unicode-line-break-written-raw-in-quoted-scalar"
+UNICODE_BREAKS = "\x85\u2028\u2029"
+
+
+def _json_escape_char(m):
+    c = ord(m.group())
+    if c < 0x10000:
+        return "\\u%04x" % c
+    c -= 0x10000
+    return "\\u%04x\\u%04x" % (0xD800 + (c >> 10), 0xDC00 + (c & 0x3FF))
+
+
+def json_rawchar_root_cause(parse_string, text, c0, drop_keys, modulo_none=False):
+    """True iff a JSON-format text fails to round trip through the yaml-mode parser ONLY because it holds raw
+    characters outside printable ASCII (json writes control characters below U+0020 escaped and everything else
+    raw): the same text with just these characters written as \\uXXXX escapes re-parses to the original."""
+    import re
+
+    alt = re.sub("[^\n\x20-\x7e]", _json_escape_char, text)
+    if alt == text:
+        return False
+    cls, _, _ = judge_reparse(parse_string, alt, c0, drop_keys, modulo_none)
+    return cls is None
+
+
+def yaml_rawbreak_root_cause(parse_string, text, json_text, c0, drop_keys, modulo_none=False):
+    """True iff a yaml-format text fails to round trip ONLY because a NEL / LS / PS character was written raw (the
+    reader takes it for a line break and folds it): the text holds such a character, and the same data (taken from
+    the json dump of the same configuration) emitted by the same dumper class with non-ASCII characters escaped
+    re-parses to the original."""
+    import yaml
+
+    if not any(ch in text for ch in UNICODE_BREAKS):
+        return False
+    try:
+        try:
+            from jsonargparse import _loaders_dumpers as ld
+
+            dumper = ld.get_yaml_default_dumper()
+        except Exception:
+            dumper = yaml.SafeDumper
+        alt = yaml.dump(json.loads(json_text), Dumper=dumper, allow_unicode=False, default_flow_style=False, sort_keys=False)
+    except Exception:
+        return False
+    cls, _, _ = judge_reparse(parse_string, alt, c0, drop_keys, modulo_none)
+    return cls is None
